@@ -18,15 +18,15 @@ Fixpoint assoc {A} (tbl : list (bytes * A)) (k : bytes) : option A :=
   end.
 
 (* the library results observed in this run, as oracle functions *)
-Definition orc_of (ft : list (bytes * (N * N))) (tmt : list (bytes * (Z * Z))) (dt : list (bytes * (bytes * Z))) : oracles :=
-  mkOracles (assoc ft) (assoc tmt) (assoc dt).
+Definition orc_of (ft : list (bytes * (option N * option N))) (tmt : list (bytes * (Z * Z))) (dt : list (bytes * (bytes * Z))) : oracles :=
+  mkOracles (fun s => match assoc ft s with Some r => r | None => (None, None) end) (assoc tmt) (assoc dt).
 
 Inductive deccase :=
 (* Decoder.Token run to its first failure on [doc]: tokens, and More() before the failing call *)
 | CLex (doc : bytes) (toks : list token) (more_at_end : bool)
 (* Codec.JSONToProto(doc, fresh message of type root) *)
 | CDec (e : env) (root : bytes) (doc : bytes)
-       (ft : list (bytes * (N * N))) (tmt : list (bytes * (Z * Z))) (dt : list (bytes * (bytes * Z)))
+       (ft : list (bytes * (option N * option N))) (tmt : list (bytes * (Z * Z))) (dt : list (bytes * (bytes * Z)))
        (obs : dec_obs).
 
 Definition obs_matches (o : outcome msg) (obs : dec_obs) : bool :=
